@@ -75,6 +75,11 @@ func vAssert(c bool, msg string) {
 }
 func vFail(msg string)     { panic(vStop{"violation", msg}) }
 func vKnown(id string)     { panic(vStop{"known", id}) }
+func vDone()               { panic(vStop{"done", ""}) }
+
+// vNative reports whether the harness runs natively (replay) rather than in the symbolic engine. Harnesses whose
+// environment exists only as an engine-side model (the model file system) stop at once when run natively.
+func vNative() bool { return true }
 func vReach(label string)  { vReached = append(vReached, label) }
 func vOutput(name string, b []byte) {
 	vOutNames = append(vOutNames, name)
